@@ -32,7 +32,7 @@ def shaped(values, grid, how):
 def one_run(case, garbage):
     c = case["c"]
     gs = build_mesh(case["mesh"]) if c["su"] == "umixed" else build(c["src"], c["su"])
-    gd = build(c["dst"], c["tu"])
+    gd = build_mesh(case["mesh"]) if c["tu"] == "umixed" else build(c["dst"], c["tu"])
     vals = shaped([float(v) for v in case["field"]], gs, c["su"]).astype(float)
     smask = shaped(case["smask"], gs, c["su"]).astype(bool)
     tmask = shaped(case["tmask"], gd, c["tu"]).astype(bool)
